@@ -1,5 +1,6 @@
 import ChythonModel.Proofs.C06PidMain
 import ChythonModel.Proofs.C06PidBfsFuel
+import ChythonModel.Proofs.C06PidNoRaise
 /-!
 # C06 — the candidate generator of `_sssr` never raises: `pidCandidates_total`
 
@@ -177,5 +178,43 @@ theorem pidCandidates_total {g : Adj} (hwf : wfAdj g = true) (hsym : symAdj g = 
         simp only
         exact ⟨_, rfl, cSet_no_raise (makePid_ok g hs paths hw hp)
           ⟨makePid_one_short g hs paths hw hp, makePid_p2_long g hs (no_loop_of_wfAdj hwf) paths hw hp⟩⟩
+
+theorem sssrTrace_cands_indep (g : Adj) (n k : Nat) : (sssrTrace g n).cands = (sssrTrace g k).cands := by
+  unfold sssrTrace
+  split
+  · rfl
+  · split
+    · rfl
+    · split <;> rfl
+
+theorem sssrTrace_final_of_cands {g : Adj} {n : Nat} {cands : List (Option Ring)}
+    (h : (sssrTrace g n).cands = some cands) : (sssrTrace g n).final = ringsFilter cands n := by
+  unfold sssrTrace at h ⊢
+  split at h
+  · cases h
+  · split at h
+    · cases h
+    · split at h
+      · cases h
+      · simp only [Option.some.injEq] at h
+        subst h
+        rfl
+
+/-- **`_sssr` never crashes**: on a well-formed symmetric graph with a non-empty pruned graph the model answers `ok …` or
+`notReached` (`ImplementationError`), unless the candidate generator yields nothing at all (`StopIteration` of `next(rings)`) -/
+theorem sssrPid_raised_only_without_candidates {g : Adj} (hwf : wfAdj g = true) (hsym : symAdj g = true)
+    (hskin : ∀ s, skinGraph g = some s → s ≠ []) {n : Nat} (h : sssrPid g n = .raised) : pidCandidates g = some [] := by
+  obtain ⟨cands, hc, hnone⟩ := pidCandidates_total hwf hsym hskin
+  have hcyc := sssrTrace_cands_cycles hwf hsym (p2LongFor_of_wf hwf hsym) 0 hc
+  have hcn : (sssrTrace g n).cands = some cands := by rw [sssrTrace_cands_indep g n 0]; exact hc
+  have hf : sssrPid g n = ringsFilter cands n := sssrTrace_final_of_cands hcn
+  by_cases he : cands = []
+  · rw [hc, he]
+  · exfalso
+    refine ringsFilter_no_raise ?_ he n (hf ▸ h)
+    intro x hx
+    cases x with
+    | none => exact absurd hx hnone
+    | some r => exact ⟨r, rfl, (hcyc r hx).1, (hcyc r hx).2.1⟩
 
 end ChythonModel.Proofs.C06
